@@ -95,8 +95,7 @@ func (e *Executor) ExecWithTimeout(ctx context.Context, target Target, dir strin
 	cmd.Dir = dir
 	cmd.Env = append(cmd.Env, env...)
 
-	var out bytes.Buffer
-	var outerr safeBuffer
+	var out, outerr safeBuffer
 	var progress *float32
 	if showOutput {
 		cmd.Stdout = io.MultiWriter(os.Stderr, &out, &outerr)
@@ -253,11 +252,18 @@ func (sb *safeBuffer) Write(b []byte) (int, error) {
 	return sb.buf.Write(b)
 }
 
+// Bytes returns a copy of what has been written so far. It's a copy because something may still be
+// writing to the buffer after we've given up on a process (e.g. a child that escaped the kill but
+// still holds the output pipes open).
 func (sb *safeBuffer) Bytes() []byte {
-	return sb.buf.Bytes()
+	sb.Lock()
+	defer sb.Unlock()
+	return bytes.Clone(sb.buf.Bytes())
 }
 
 func (sb *safeBuffer) String() string {
+	sb.Lock()
+	defer sb.Unlock()
 	return sb.buf.String()
 }
 
